@@ -12,6 +12,7 @@ import (
 	"sort"
 	"strings"
 
+	"golang.org/x/tools/go/callgraph"
 	"golang.org/x/tools/go/packages"
 	"golang.org/x/tools/go/ssa"
 	"golang.org/x/tools/go/ssa/ssautil"
@@ -47,6 +48,7 @@ type Prog struct {
 	excluded []string
 
 	implCache map[string][]*ssa.Function
+	cg        *callgraph.Graph
 	declCache map[*ssa.Function]*ast.FuncDecl
 }
 
